@@ -82,6 +82,10 @@ def rule_core(ctx):
             if verdict == ">=":
                 res.ok()
                 res.sample({"site": inst, "condition": "neighbour count >= min_points"})
+            elif verdict is None and (any(qk in g_[1] for g_ in e.guards) or any(qk in g_[1] for x in tr.events if x.kind in ("continue", "break", "ret") and x.order < e.order and x.loops and e.loops and x.loops[0][1] is e.loops[0][1] for g_ in x.guards)):
+                # the insertion does stand under a test of what the neighbour query returned - a flag the helper computed
+                # (`candidate.is_core`), not a comparison written here: whether that flag is `count >= min_points` is not read
+                res.undecided("%s : core-test-form:#%d" % (key, i), "the frontier insertion is guarded by a value of the neighbour query that is not a comparison with min_points in this function (fail closed)", fn_loc(fn, e.node["ln"]))
             elif verdict is None:
                 res.violate("%s : non-core-expansion:#%d" % (key, i), "points are added to the search frontier without a `neighbour count >= min_points` test: a non-core (border) point would extend the cluster", fn_loc(fn, e.node["ln"]))
             else:
@@ -105,6 +109,8 @@ def rule_core(ctx):
                 okskip = g[0] == "+"
             if okskip:
                 res.ok()
+            elif not isinstance(gv, Cmp) and seed_q and k(seed_q[0].val) in g[1]:
+                res.undecided("%s : seed-skip-form" % key, "a seed is skipped under `%s`, a value of the neighbour query that is not a comparison with min_points in this function (fail closed)" % g[1][:100], fn_loc(fn, x.node["ln"]))
             else:
                 res.violate("%s : seed-skip-condition" % key, "a seed is skipped under `%s`, which is neither `already labelled` nor exactly `neighbour count < min_points`: a core point can stay unlabelled" % g[1][:100], fn_loc(fn, x.node["ln"]))
         # the scan over the samples is never cut short: whether a later sample is a core point depends on its own
